@@ -73,6 +73,7 @@ class Universe:
         self.ever: set[str] = set()
         self.ever_kinds: dict[str, set] = {}
         self.record_inodes = False
+        self.held: list = []  # [fd, operations left until it is closed]
         self.graveyard = None  # if set: deletions are renames into this directory, so inode numbers are never re-used
         self._grave_n = 0
 
@@ -80,6 +81,7 @@ class Universe:
         return os.path.join(self.base, rel)
 
     def cleanup(self):
+        self.tick_held(force=True)
         shutil.rmtree(self.base, ignore_errors=True)
 
     # ---- pre-population
@@ -131,6 +133,16 @@ class Universe:
                         pass
                     self.m.t[p] = "f"
         return top
+
+    def tick_held(self, force=False):
+        for h in list(self.held):
+            h[1] -= 1
+            if force or h[1] <= 0:
+                try:
+                    os.close(h[0])
+                except OSError:
+                    pass
+                self.held.remove(h)
 
     def _delete(self, path, isdir):
         if self.graveyard:
@@ -222,6 +234,13 @@ class Universe:
                 rec["new"].append((q, k))
         elif kind == "rmdir":
             p = op[1]
+            if len(op) > 2 and op[2] == "held" and not self.graveyard:
+                # somebody still holds the directory open: the kernel reports IN_DELETE to the parent at once but delays the
+                # directory's own IN_DELETE_SELF / IN_IGNORED until the last descriptor is closed (a few operations later)
+                try:
+                    self.held.append([os.open(A(p), os.O_RDONLY | os.O_DIRECTORY), 3])
+                except OSError:
+                    pass
             self._delete(A(p), True)
             m.t.pop(p)
         elif kind == "rmtree":
@@ -390,7 +409,7 @@ class OpGen:
             d = r.choice(dirs)
             c.append((w.get("chmod", 1) * 0.5, ("chmod", d)))
             if not m.children(d):
-                c.append((w.get("rmdir", 2), ("rmdir", d)))
+                c.append((w.get("rmdir", 2), ("rmdir", d, "held") if r.random() < 0.35 else ("rmdir", d)))
             c.append((w.get("rmtree", 1), ("rmtree", d)))
         # renames inside
         for _ in range(3):
